@@ -376,6 +376,8 @@ func ruleImportsWriters(c *Ctx) []Obligation {
 				switch {
 				case fieldRole == "imports" && w.fn == reg:
 					o.add(Discharged, fn, construct, w.in.Pos(), true, "registration function (key %s)", a.Desc(mu.Key))
+				case fieldRole == "imports" && c.importsStoreHelperOK(w.fn, mu, reg):
+					o.add(Discharged, fn, construct, w.in.Pos(), true, "the single write point of the table: every call outside the registration function passes the anonymous-import entry")
 				case fieldRole == "imports":
 					// Anon idiom: constant {"_", true}
 					fs, ok := a.structLit(mu.Value)
@@ -593,6 +595,11 @@ func (c *Ctx) globalUseOK(v ssa.Value, depth int) (bool, string) {
 		case *ssa.MapUpdate:
 			return false, "map update at " + c.pos(x.Pos())
 		case *ssa.Return:
+			if isErrorIface(v.Type()) {
+				// a sentinel error: an interface value whose dynamic value no caller can modify
+				// (every store to the variable is judged separately)
+				continue
+			}
 			return false, "returned (escape) at " + c.pos(x.Pos())
 		case ssa.CallInstruction:
 			cc := x.Common()
@@ -2175,4 +2182,77 @@ func isWriterCarrier(f *ssa.Function, idx int) bool {
 		}
 	}
 	return false
+}
+
+func isErrorIface(t types.Type) bool {
+	n, ok := t.(*types.Named)
+	return ok && n.Obj().Pkg() == nil && n.Obj().Name() == "error"
+}
+
+// importsStoreHelperOK: h stores one of its parameters into File.imports, every call of h is a static
+// call in the module, and each call is made by the registration function (or a function only it
+// calls) or passes the constant anonymous-import entry {"_", true}.
+func (c *Ctx) importsStoreHelperOK(h *ssa.Function, mu *ssa.MapUpdate, reg *ssa.Function) bool {
+	pidx := -1
+	val := mu.Value
+	if u, ok := val.(*ssa.UnOp); ok && u.Op == token.MUL {
+		if al, ok := u.X.(*ssa.Alloc); ok {
+			if pp := allocParam(al); pp != nil {
+				val = pp // a parameter spilled to the stack
+			}
+		}
+	}
+	for i, p := range h.Params {
+		if val == ssa.Value(p) {
+			pidx = i
+		}
+	}
+	cg := c.CG()
+	if os.Getenv("JENLINT_DEBUG") != "" {
+		fmt.Fprintf(os.Stderr, "importsStoreHelperOK %s pidx=%d known=%v val=%T\n", fname(h), pidx, cg.allCallersKnown(h), mu.Value)
+	}
+	if pidx < 0 || !cg.allCallersKnown(h) {
+		return false
+	}
+	ofReg := func(f *ssa.Function) bool {
+		if f == reg {
+			return true
+		}
+		cs := cg.callersOf(f)
+		if len(cs) == 0 || !cg.allCallersKnown(f) {
+			return false
+		}
+		for _, k := range cs {
+			if k != reg {
+				return false
+			}
+		}
+		return true
+	}
+	sites := 0
+	for _, f := range c.allFuncs(c.Jen) {
+		for _, b := range f.Blocks {
+			for _, in := range b.Instrs {
+				ci, ok := in.(ssa.CallInstruction)
+				if !ok || ci.Common().StaticCallee() != h {
+					continue
+				}
+				sites++
+				if ofReg(f) {
+					continue
+				}
+				args := ci.Common().Args
+				if pidx >= len(args) {
+					return false
+				}
+				fs, ok := c.FA(f).structLit(args[pidx])
+				name, _ := constString(fs[c.ff("defname")])
+				al, _ := constBool(fs[c.ff("defalias")])
+				if !(ok && fs[c.ff("defname")] != nil && name == "_" && fs[c.ff("defalias")] != nil && al) {
+					return false
+				}
+			}
+		}
+	}
+	return sites > 0
 }
